@@ -730,6 +730,9 @@ func c19Check(cs *c19Case, base *c19Compiled, baseGraph *c19Node, pl c19Planned,
 			tag += "+leaves-map-call-without-split"
 		}
 	}
+	if modelOut == "unsupported" {
+		modelOut = "" // removeOutput is not modelled (see manifest): real-code oracle only
+	}
 	if modelOut != "" && modelOut != editedEnc {
 		return c19Outcome{Kind: "correspondence", Key: "C19:model:" + e.Op, What: "model result differs from the real edited AST",
 			Impl: editedEnc, Model: modelOut}, editedEnc
